@@ -27,6 +27,7 @@ var solverCmds = map[string][]string{
 	"z3":     {"z3", "-in", "-smt2"},
 	"z3-new": {"z3-new", "-in", "-smt2"},
 	"cvc5":   {"cvc5", "--incremental", "--lang=smt2", "--produce-models"},
+	"z3sat":  {"z3-new", "-in", "-smt2"}, // z3 5.1 with an explicit bit-blasting tactic (QF_BV only)
 }
 
 func StartSolver(name string) (*Solver, error) {
@@ -66,9 +67,21 @@ func (s *Solver) Close() {
 		s.in.Close()
 		s.cmd.Process.Kill()
 		s.cmd.Wait()
+		s.cmd = nil
 	}
 	s.dead = true
 }
+
+// Abort kills the solver process from another goroutine (used to stop the loser of a race).
+func (s *Solver) Abort() {
+	defer func() { recover() }()
+	if c := s.cmd; c != nil && c.Process != nil {
+		c.Process.Kill()
+	}
+}
+
+// solverSem bounds the number of solver queries in flight.
+var solverSem = make(chan struct{}, 18)
 
 func (s *Solver) restart() {
 	s.Close()
@@ -156,10 +169,13 @@ type QueryResult struct {
 
 // Check runs: prefix ; (assert each) ; (check-sat) ; optional (get-value vars) in a fresh scope.
 func (s *Solver) Check(prefix string, asserts []string, vars []*Term, timeout time.Duration) QueryResult {
+	solverSem <- struct{}{}
+	defer func() { <-solverSem }()
 	s.mu.Lock()
 	defer s.mu.Unlock()
 	start := time.Now()
 	if s.dead {
+		s.Close() // reap the old process
 		if err := s.start(); err != nil {
 			return QueryResult{Status: "error", Raw: err.Error(), Solver: s.Name}
 		}
@@ -176,18 +192,38 @@ func (s *Solver) Check(prefix string, asserts []string, vars []*Term, timeout ti
 	for _, a := range asserts {
 		sb.WriteString("(assert " + a + ")\n")
 	}
-	sb.WriteString("(check-sat)\n")
-	if err := s.send(sb.String()); err != nil {
-		s.dead = true
-		return QueryResult{Status: "error", Raw: err.Error(), Solver: s.Name}
+	if s.Name == "z3sat" && !strings.Contains(prefix, "declare-fun") {
+		sb.WriteString("(check-sat-using (then simplify propagate-values solve-eqs elim-uncnstr bit-blast aig sat))\n")
+	} else {
+		sb.WriteString("(check-sat)\n")
 	}
-	res, err := s.readTimeout(timeout + 5*time.Second)
+	sendErr := make(chan error, 1)
+	script := sb.String()
+	go func() { sendErr <- s.send(script) }()
+	select {
+	case err := <-sendErr:
+		if err != nil {
+			s.dead = true
+			return QueryResult{Status: "error", Raw: err.Error(), Solver: s.Name}
+		}
+	case <-time.After(timeout + 300*time.Millisecond):
+		// the solver did not even consume the script in time
+		s.cmd.Process.Kill()
+		<-sendErr
+		s.dead = true
+		return QueryResult{Status: "timeout", Solver: s.Name, Time: time.Since(start), Raw: "timeout while sending"}
+	}
+	remaining := timeout + 300*time.Millisecond - time.Since(start)
+	if remaining < 100*time.Millisecond {
+		remaining = 100 * time.Millisecond
+	}
+	res, err := s.readTimeout(remaining)
 	for err == nil && (strings.HasPrefix(res, "(error") || res == "unsupported" || res == "success") {
 		if strings.HasPrefix(res, "(error") {
 			s.restart()
 			return QueryResult{Status: "error", Raw: res, Solver: s.Name, Time: time.Since(start)}
 		}
-		res, err = s.readTimeout(timeout + 5*time.Second)
+		res, err = s.readTimeout(timeout + 300*time.Millisecond)
 	}
 	if err != nil {
 		s.dead = true
